@@ -39,7 +39,11 @@ def _ensure_updated_strategy_flag_set(
     unexpected_keys: Iterable[str],
     error_msgs: Iterable[str],
 ):
-    device = state_dict[list(state_dict.keys())[0]].device
+    own_keys = [key for key in state_dict.keys() if key.startswith(prefix)]
+    if not own_keys:
+        # A partial state dict (strict=False) without any entry for this strategy: nothing was saved by an old version
+        return
+    device = state_dict[own_keys[0]].device
     if prefix + "updated_strategy" not in state_dict:
         state_dict[prefix + "updated_strategy"] = torch.tensor(False, device=device)
         warnings.warn(
